@@ -283,8 +283,8 @@ impl Property for C20 {
     }
     fn cases(&self, tier: Tier) -> u64 {
         match tier {
-            Tier::Quick => 400,
-            Tier::Thorough => 20_000,
+            Tier::Quick => 1500,
+            Tier::Thorough => 30_000,
         }
     }
     fn floors(&self) -> Vec<(&'static str, f64)> {
